@@ -23,7 +23,7 @@ REQUIRED = ["contract:CVR.merge_cvrs", "merge_checked", "merge_conflict_expected
             "merged_with_pool_false", "merged_phantom_mixed", "raire_checked", "raire_file_checked",
             "later_record_overrides_contest", "lists_whose_records_share_votes_objects",
             "raire_lines_where_a_candidate_shares_its_name_with_the_contest_or_ballot",
-            "raire_file_fields_holding_characters_some_routines_split_lines_on", "raire_lines_listing_a_candidate_twice"]
+            "raire_file_fields_holding_characters_some_routines_split_lines_on", "raire_lines_listing_a_candidate_twice", "raire_file_identifiers_that_differ_by_a_leading_blank"]
 ASSUMPTIONS = ["tally-pool conflict = two different non-None labels for one id (None is 'unknown')"]
 N_CASES = {"quick": 80000, "thorough": 640000}
 
@@ -197,6 +197,9 @@ def gen_raire(rng):
         rows.append(["Contest", c, str(len(cands[c]))] + cands[c] + ["winner", cands[c][0]])
     nb = rng.randint(0, 12) if ncon < 10 else rng.randint(20, 40)   # (with contests 1..12 and ballots 1..40, "1"+"23" reads like "12"+"3")
     bids = [str(j + 1) for j in range(nb)] if small else [f"1_{rng.randint(1, 3)}_{j}" for j in range(nb)]
+    if bids and rng.random() < 0.15:
+        # two cards whose identifiers differ by a leading blank only (fixed-width numbering exported as text): two cards
+        bids.append(" " + bids[0])
     lines = []
     for b in bids:
         for c in rng.sample(cons, rng.randint(1, min(ncon, 3))):
@@ -309,6 +312,8 @@ def run_case(case, rec):
                 return
             cvrs = res[0]
             rec.count("raire_file_checked")
+            if any(r[1].startswith(" ") for r in rows[1 + int(rows[0][0]):]):
+                rec.count("raire_file_identifiers_that_differ_by_a_leading_blank")
             if any(ch in fld for r in rows for fld in r for ch in "\x0c\u2028\x1d\n\x85"):
                 rec.count("raire_file_fields_holding_characters_some_routines_split_lines_on")
             if res[2] != len(cvrs):
